@@ -110,6 +110,7 @@ def run_case(i, tier, seed):
             except Exception as e:
                 outcome = ("raised", e)
                 obs["raised"] += 1
+            open_log = list(tracefs.LOG)  # before any probing of a returned tree
             if cut is None:
                 obs["missing_file_variants"] += 1
                 if outcome[0] == "returned":
@@ -140,7 +141,7 @@ def run_case(i, tier, seed):
                 if role == "img":
                     im = refdec.image(files[n])
                     path = f"{root}/{n}"
-                    rd = [e for e in tracefs.LOG if e[0] == "read" and e[1] == path]
+                    rd = [e for e in open_log if e[0] == "read" and e[1] == path]
                     obs["reads_on_damaged_image"] += len(rd)
                     limit = 1 + math.ceil(im["n_records"] / max(1, min(rpc, im["n_records"])))
                     asked = sum(e[3] for e in rd if e[3] and e[3] > 0)
